@@ -373,8 +373,17 @@ def _check_luby_rackoff(repo, r6, lrc):
     try:
         sm = shape.summary(lrc.node)
     except shape.NoShape as e:
-        r6.fail_fn(lrc, lrc.node, "round loop", "LubyRackoffPRP.__call__ is no longer <split>; <round loop>; <join> (%s)" % e)
-        return
+        # the rounds may be written out one after the other: roll them up again and judge the loop
+        rolled = shape.reroll(lrc.node)
+        sm = None
+        if rolled is not None:
+            try:
+                sm = shape.summary(rolled)
+            except shape.NoShape:
+                sm = None
+        if sm is None:
+            r6.fail_fn(lrc, lrc.node, "round loop", "LubyRackoffPRP.__call__ is no longer <split>; <round loop>; <join> (%s)" % e)
+            return
     msg = ("var", mp)
     H = S.mv("H")
     eqs = [(("slice", msg, None, H), lambda asg: sm.init.get(asg["L"])),
